@@ -151,6 +151,16 @@ def _sequence_task(task):
                 base = T.get(n[:-1])
                 s = base.rp.seeds
                 insts.append(T.reseeded(base, M=T.alt_seed(base, s[0], b"+"), N=T.alt_seed(base, s[1], b"+"), S=T.alt_seed(base, s[2], b"+"), name=n))
+            elif n.endswith("^"):
+                # an empty seed in each position, where the published construction is well-defined for it
+                base = T.get(n[:-1])
+                try:
+                    base.ref.arbitrary(b"")
+                except Exception:
+                    acc.note("%s: the empty seed is construction-degenerate on this toy group; variant skipped" % n)
+                    continue
+                insts.append(T.reseeded(base, M=b"", name=n + "M"))
+                insts.append(T.reseeded(base, N=b"", S=b"", name=n + "NS"))
             else:
                 insts.append(T.get(n))
         except Exception as e:
@@ -357,8 +367,10 @@ def run(tier, seed):
         for side in "ABS":
             for ch in core.chunks(m, 6):
                 tasks.append((name, side, ch, False))
-    core.pmerge(_any_task, [("seq", t) for t in reversed([(["T23", "T23'", "T29"],), (["E37", "E37'"],), (["Params1024", "Params1024'"],),
-                                                         (["ParamsEd25519", "ParamsEd25519'"],)])] + [("small", t) for t in tasks], acc)
+    core.pmerge(_any_task, [("seq", t) for t in reversed([(["T23", "T23'", "T29", "T23^", "T29^", "T11^"],), (["E37", "E37'", "E37^"],),
+                                                         (["Params1024", "Params1024'"],), (["Params1024^"],),
+                                                         (["ParamsEd25519", "ParamsEd25519'"],), (["ParamsEd25519^"],)])] +
+                [("small", t) for t in tasks], acc)
     core.pmerge(_ids_task, [(n, s) for n in (["T23", "E37"] if quick else ["T23", "T29", "E37", "E109"]) for s in "ABS"], acc)
     tasks_seq = [(["T23", "T23'", "T29"],), (["E37", "E37'"],), (["Params1024", "Params1024'"],), (["ParamsEd25519", "ParamsEd25519'"],)]
     # shipped
